@@ -36,6 +36,9 @@ var c03Kinds = []ruleKind{
 	// the same with a condition that PANICS (integer modulo by zero) until repaired
 	{"7 % F.In == 1 && F.I < 3", []string{"F.I = F.I + 1", "F.Act(%d)"}},
 	{"F.I2 == 0 || F.I2 == 1", []string{"F.In = 2", "F.I2 = F.I2 + 2"}},
+	// a condition over a getter whose value the rule changes through a Go method and announces with Changed()
+	// (the family runs such programs also as the second run on one data context with a fresh instance)
+	{"F.GetI() < 2", []string{"F.Bump()", `Changed("F.GetI()")`, `Forget("F.Bump()")`, "F.Act(%d)"}}, // Forget re-arms the (remembered) call used as an action
 }
 
 func mkRule(name string, k ruleKind, id int) *grl.Rule {
@@ -201,9 +204,9 @@ func C03(rep *ev.Reporter, tier string) {
 		if tier == "thorough" {
 			s3 = []salSpec{sals[0], sals[2], sals[4], sals[5]}
 		}
-		k3 := []int{0, 8, 9, 10, 11}
+		k3 := []int{0, 8, 9, 10, 12}
 		if tier == "thorough" {
-			k3 = []int{0, 1, 2, 3, 4, 5, 6, 8, 9, 10, 11}
+			k3 = []int{0, 1, 2, 3, 4, 5, 6, 8, 9, 10, 11, 12}
 		}
 		for _, a := range k3 {
 			for _, b := range k3 {
@@ -244,7 +247,14 @@ func C03(rep *ev.Reporter, tier string) {
 			}
 		}
 	}
+	gen0 := gen
+	gen = func(emit func(Case)) {
+		gen0(func(c Case) {
+			c.ReuseDC = true // applies to programs calling Forget / Changed
+			emit(c)
+		})
+	}
 	RunFamily(rep, gen, 4000, bud, judgeC03)
-	rep.Coverage["rule"] = "every rule set of k=2 (all kind pairs x all salience pairs) and k=3 (all kind triples x salience triples) rules over 12 rule kinds (quick: 5 of them in triples) whose actions change which rules are satisfied next, two of them changing facts only through a slice element / map entry, one calling Complete() in the middle of its action list, one whose condition fails to evaluate (missing map key; integer modulo by zero, which panics inside the engine) until another kind's action repairs it; the fired rule is compared with the maximum over the conflict set the reference evaluator recomputes on the current facts AND with the maximum over the candidates the engine reported; per program every initial world x every rule-iteration order at every cycle (state-pruned). Non-trivial: a firing chosen among >=2 candidates with >=2 distinct saliences."
+	rep.Coverage["rule"] = "every rule set of k=2 (all kind pairs x all salience pairs) and k=3 (all kind triples x salience triples) rules over 13 rule kinds (quick: 5 of them in triples) whose actions change which rules are satisfied next, two of them changing facts only through a slice element / map entry, one calling Complete() in the middle of its action list, one whose condition fails to evaluate (missing map key; integer modulo by zero, which panics inside the engine) until another kind's action repairs it; the fired rule is compared with the maximum over the conflict set the reference evaluator recomputes on the current facts AND with the maximum over the candidates the engine reported; per program every initial world x every rule-iteration order at every cycle (state-pruned). Non-trivial: a firing chosen among >=2 candidates with >=2 distinct saliences."
 	rep.Assumptions = append(rep.Assumptions, "saliences written in decimal/hex/octal/negative spellings; model salience comes from the generator, not from the engine's parse", "rule order controlled through the overlay hook verifhook.Order (all k! orders per cycle)")
 }
